@@ -108,6 +108,18 @@ def compare_loads(ctx, kind, obj, text, where):
     variants = [('str', text), ('bytes', text.encode('latin-1', 'replace') if kind != 'clear' else text.encode('utf-8')),
                 ('bytearray', bytearray(text.encode('latin-1', 'replace'))), ('crlf', text.replace('\n', '\r\n')),
                 ('surrounded', 'Dear reader,\nsome text before\n\n' + text + '\nand after\n')]
+    if kind != 'clear':
+        # an armor header line stands on a line of its own (6.2): the marker inside a line of the surrounding text is just text
+        label = text.split('-----BEGIN PGP ', 1)[1].split('-----', 1)[0] if '-----BEGIN PGP ' in text else 'MESSAGE'
+        quoted = ''.join('> ' + ln + '\n' for ln in text.splitlines())
+        indented = ''.join('    ' + ln + '\n' for ln in text.splitlines())
+        variants += [('marker-in-sentence', 'The block starts at the -----BEGIN PGP %s----- line below.\n\n' % label + text + '\n-- \nsignature block\n'),
+                     ('quoted-copy-before', 'On Monday you wrote:\n' + quoted + '\nHere is the new one:\n' + text),
+                     ('indented-copy-before', indented + '\n' + text),
+                     ('other-armor-before', '-----BEGIN CERTIFICATE-----\nTUlJQg==\n-----END CERTIFICATE-----\n\n' + text),
+                     ('dash-lines-around', '-----\n----- BEGIN -----\n' + text + '-----\n'),
+                     ('marker-mentioned-after', text + '\nThe line -----BEGIN PGP %s----- above starts it, -----END PGP %s----- ends it.\n' % (label, label)),
+                     ('mail-headers', 'From: a@example.org\nSubject: -----BEGIN PGP stuff\nContent-Type: text/plain\n\n' + text + '\n')]
     try:
         with warnings.catch_warnings():
             warnings.simplefilter('error')
